@@ -122,7 +122,7 @@ def render(dot, predicate: Predicate, node_nr):
             case IsTruthyPredicate():
                 return add_node("truthy", label="truthy")
             case FnPredicate(predicate_fn):
-                name = predicate_fn.__code__.co_name
+                name = getattr(predicate_fn, "__name__", type(predicate_fn).__name__)
                 return add_node("fn", label=f"fn: {name}")
             case GePredicate(v):
                 return add_node("ge", label=f"x ≥ {v}")
